@@ -33,6 +33,16 @@ inductive Con where
   | not (a : Con)
 deriving Repr
 
+def CmpOp.neg : CmpOp → CmpOp
+  | .eq => .ne | .ne => .eq | .lt => .ge | .le => .gt | .gt => .le | .ge => .lt
+
+/-- `Constraint::not` (since fix 7500ca2): the negation of a comparison is the complementary
+comparison, a double negation cancels, anything else is wrapped in a `Not` node -/
+def Con.mkNot : Con → Con
+  | .bin l op r => .bin l op.neg r
+  | .not c => c
+  | c => .not c
+
 namespace Expr
 
 /-- `ExprBuilder::add/sub/mul/div/modulo` (constant folding, `*1`, `/1`); `none` when the builder
